@@ -73,3 +73,53 @@ func containsStr(s, sub string) bool {
 	}
 	return false
 }
+
+// lostTrace: explore without sleep sets, pick an execution whose trace key is in the file of lost keys, print
+// it, then explore WITH sleep sets watching that schedule.
+func init() {
+	workers["lost"] = func(args []string) {
+		h := harnessByName(args[0])
+		bound, _ := strconv.Atoi(args[1])
+		lost := map[string]bool{}
+		b, _ := os.ReadFile(args[2])
+		for _, l := range splitLines(string(b)) {
+			lost[l] = true
+		}
+		opts := vsched.Options{Bound: bound, Horizon: 4000, LowPriority: lowPriority}
+		var target []vsched.Choice
+		vsched.Explore(bodyOf(h), opts, func(e *vsched.Execution) bool {
+			if e.Outcome != vsched.Pruned && lost[fmt.Sprintf("%x", e.TraceKey[0])] {
+				target = append([]vsched.Choice(nil), e.Choices...)
+				return false
+			}
+			return true
+		})
+		if target == nil {
+			fmt.Println("no lost execution found")
+			return
+		}
+		r := vsched.Replay(bodyOf(h), target, opts)
+		for _, l := range traceLines(r, 0) {
+			fmt.Println(l)
+		}
+		opts.Sleep = true
+		opts.Watch = target
+		vsched.Explore(bodyOf(h), opts, func(e *vsched.Execution) bool { return true })
+	}
+}
+
+func splitLines(s string) []string {
+	var out []string
+	cur := ""
+	for _, c := range s {
+		if c == '\n' {
+			if cur != "" {
+				out = append(out, cur)
+			}
+			cur = ""
+		} else {
+			cur += string(c)
+		}
+	}
+	return out
+}
